@@ -106,11 +106,13 @@ def className : Reply → String
 structure Step where
   line : Str
   bit : Bool
-  obs : Obs
+  obs : Option Obs   -- `none` ("?"): the harness could not observe the state (the command hung)
 
 def parseStep (s : String) : Option Step :=
   match s.splitOn "/" with
-  | [l, b, o] => do some { line := ← hexDecode l, bit := b = "1", obs := ← parseObs o }
+  | [l, b, o] => do
+    let obs ← if o = "?" then some none else (parseObs o).map some
+    some { line := ← hexDecode l, bit := b = "1", obs := obs }
   | _ => none
 
 def runModel (pathOk : Bool) (gs : Bool) (o0 : Obs) (steps : List Step) : String := Id.run do
@@ -126,9 +128,12 @@ def runModel (pathOk : Bool) (gs : Bool) (o0 : Obs) (steps : List Step) : String
       let (s', r) := handle env s st.line
       s := s'
       classes := classes ++ [className r]
-    match sync s st.obs with
-    | .error e => return e ++ s!" (step {k})"
-    | .ok s' => s := s'
+    match st.obs with
+    | none => pure ()
+    | some o =>
+      match sync s o with
+      | .error e => return e ++ s!" (step {k})"
+      | .ok s' => s := s'
     k := k + 1
   let env : Env := { evalOk := fun _ => false, setPathOk := fun _ _ => pathOk }
   let (_, r) := handle env s (str "status")
